@@ -392,13 +392,17 @@ func findObject(pd *container, path string) (container, string) {
 }
 
 func (d *partialDoc) set(key string, val *lazyNode) error {
+	// A null document decodes into a nil map; it has no members to set.
+	if *d == nil {
+		return ErrInvalid
+	}
+
 	(*d)[key] = val
 	return nil
 }
 
 func (d *partialDoc) add(key string, val *lazyNode) error {
-	(*d)[key] = val
-	return nil
+	return d.set(key, val)
 }
 
 func (d *partialDoc) get(key string) (*lazyNode, error) {
